@@ -1,3 +1,4 @@
+import Ntrip.Guards.Apps
 import Ntrip.Proofs.PipeTerm
 import Ntrip.Proofs.SegmentRefine
 import Ntrip.Generated.Skeletons
@@ -106,5 +107,15 @@ example (crc : Bytes → Nat) (bs : Bytes) :
     cases b <;> cases b' <;> simp_all
 
 example (crc : Bytes → Nat) (bs : Bytes) (p) (k) (cap) (isNil) : Reach (pipeCfg crc bs p k cap isNil) (init Msg) := .init
+
+/-- Tie T1: what `Handle` hands over — single bytes by value, from the read loop itself. -/
+theorem tie_handover :
+    Gen.sent_fh_Handler_Handle = some ["go handler.RTCMHandler.HandleMessages()", "byteChan <- buf[0]"] := by decide
+
+/-- Tie T1 (guards): the conditions and loops of `Handle`. -/
+theorem tie_guards_reader : type_of% Ntrip.Guards.reader := Ntrip.Guards.reader
+
+/-- Tie T1 (guards): the conditions and loops of `HandleMessagesUntilEOF`. -/
+theorem tie_guards_fanout : type_of% Ntrip.Guards.fanout := Ntrip.Guards.fanout
 
 end Ntrip.C09
